@@ -93,14 +93,41 @@ pub fn main_solar(args: &Args) {
                     }
                     Err(site) => out.push(json!({"ev": "SunVec", "decl": tj(d), "hour": tj(w), "lat": tj(p), "got": [0, 0, 0], "alt": 0, "az": 0, "panic": site})),
                 }
+                let sp_for_front = {
+                    let loc2 = Location { latitude: deg(p), longitude: 0.0, ..Default::default() };
+                    let (dd, ww) = (deg(d), deg(w));
+                    catch(move || sun_position(dd, ww, loc2)).ok().map(|sp| bemodel::energy::ray_dir_to_sun(sp.azimuth, sp.altitude))
+                };
                 if quick && (w.2 == 13) {
                     continue;
                 }
                 for t in &tilts {
                     for a in &azs {
                         let ang = angle_sol_surf(deg(d), deg(w), deg(p), deg(t), deg(a));
+                        // the outward normal of a surface of the model with this tilt and azimuth, observed where the model uses it:
+                        // a window in such a wall, nothing around, is sunlit exactly when the sun is in front of the wall
+                        let front: i64 = match &sp_for_front {
+                            Some(dir) => {
+                                use bemodel::{BoundaryType, Model, Wall, WallGeom, WinGeom, Window};
+                                let mut m = Model::default();
+                                let wall = Wall { name: "W".into(), bounds: BoundaryType::EXTERIOR,
+                                    geometry: WallGeom { tilt: deg(t), azimuth: deg(a), position: Some(nalgebra::point![0.0, 0.0, 0.0]),
+                                        polygon: vec![nalgebra::point![0.0, 0.0], nalgebra::point![4.0, 0.0], nalgebra::point![4.0, 3.0], nalgebra::point![0.0, 3.0]] }, ..Default::default() };
+                                let win = Window { name: "V".into(), wall: wall.id, geometry: WinGeom { position: Some(nalgebra::point![1.0, 1.0]), width: 1.0, height: 1.0, setback: 0.0 }, ..Default::default() };
+                                m.walls.push(wall);
+                                m.windows.push(win);
+                                let dir = *dir;
+                                catch(std::panic::AssertUnwindSafe(move || {
+                                    let win = &m.windows[0];
+                                    let origins = m.ray_origins_for_window(win);
+                                    let occ = m.collect_occluders();
+                                    m.sunlit_fraction(win, &origins, &dir, &occ)
+                                })).map(|s| if s > 0.5 { 1 } else { 0 }).unwrap_or(-2)
+                            }
+                            None => -1,
+                        };
                         out.push(json!({"ev": "Incidence", "decl": tj(d), "hour": tj(w), "lat": tj(p), "tilt": tj(t), "az": tj(a),
-                            "gotcos": q1(ang.to_radians().cos(), 1e4)}));
+                            "gotcos": q1(ang.to_radians().cos(), 1e4), "front": front}));
                     }
                 }
             }
